@@ -41,11 +41,13 @@ func VerifSnapshot(r Router) map[wamp.URI]VerifSizes {
 	}
 	realms := map[wamp.URI]*realm{}
 	done := make(chan struct{})
-	rtr.actionChan <- func() {
+	if !rtr.submit(func() {
 		for uri, rlm := range rtr.realms {
 			realms[uri] = rlm
 		}
 		close(done)
+	}) {
+		return map[wamp.URI]VerifSizes{} // router closed
 	}
 	<-done
 
@@ -53,12 +55,16 @@ func VerifSnapshot(r Router) map[wamp.URI]VerifSizes {
 	for uri, rlm := range realms {
 		var s VerifSizes
 		sync := make(chan struct{})
-		rlm.actionChan <- func() {
+		select {
+		case rlm.actionChan <- func() {
 			s.Clients = len(rlm.clients)
 			s.Testaments = len(rlm.testaments)
 			close(sync)
+		}:
+			<-sync
+		case <-rlm.stopped:
+			continue // realm closed meanwhile
 		}
-		<-sync
 
 		b := rlm.broker
 		sync = make(chan struct{})
